@@ -1529,10 +1529,9 @@ def _encode_host(host: str, validate_host: bool) -> str:
                     f"Host {host!r} cannot contain {invalid.group()!r} "
                     "in its zone id"
                 ) from None
-            host = ip.compressed
-            if ip.version == 6:
-                return f"[{host}%{zone}]" if sep else f"[{host}]"
-            return f"{host}%{zone}" if sep else host
+            host = f"{ip.compressed}%{zone}" if sep else ip.compressed
+            # IPv6, or a zone id with a colon: brackets keep the authority parseable
+            return f"[{host}]" if ip.version == 6 or ":" in zone else host
 
     # IDNA encoding is slow, skip it for ASCII-only strings
     host = host.lower() if host.isascii() else _idna_encode(host)
